@@ -253,6 +253,31 @@ func VerifJobScriptDebug(debug bool, template string, shellCmd string, argv []st
 		&JobResources{Threads: threads, MemGB: memGB}, fqname, shellName)
 }
 
+// VerifJobScriptSpecial is VerifJobScriptDebug for a job with a `special`
+// resource request, on a job manager configured with the given resources
+// option (config.json "resopt") and --jobresources mappings.
+func VerifJobScriptSpecial(debug bool, template, resOpt string, mappings map[string]string,
+	special string, shellCmd string, argv []string,
+	envs map[string]string, mdPath, fqname, shellName string,
+	threads, memGB float64) string {
+	m := &RemoteJobManager{
+		config: jobManagerConfig{
+			jobSettings: &JobManagerSettings{
+				ThreadsPerJob: 1, MemGBPerJob: 1, ExtraVmemGB: 1,
+				ThreadEnvs: []string{"MRO_THREADS"},
+			},
+			jobTemplate:      template,
+			jobResourcesOpt:  resOpt,
+			threadingEnabled: true,
+		},
+		jobResourcesMappings: mappings,
+		debug:                debug,
+	}
+	md := NewMetadata(fqname, mdPath)
+	return m.jobScript(shellCmd, argv, envs, md,
+		&JobResources{Threads: threads, MemGB: memGB, Special: special}, fqname, shellName)
+}
+
 // VerifJobScripter returns a renderer of job scripts bound to one job manager,
 // as mrp has one; the harness calls it from several goroutines, as execJob
 // does when --maxjobs is set.
